@@ -23,6 +23,8 @@ CLAIMS = {
          "text-level inverse lemmas (Parse o Marshal = id) are not mechanised; base64 encoder composition assumed; bufio/strings contracts assumed"),
  "C08": ("proof of the armor state machines: the writer emits the BEGIN line exactly once and before any encoded byte (also when Close is the first call), Close emits the END line preceded by a newline iff the last base64 line is non-empty and its output is BEGIN-less text = out0 ++ wrapcols(0, base64(data)) ++ footer; the reader stores and returns every failure as *armor.Error, never returns data after an error, accepts only lines of at most 64 columns of strict padded base64, rejects empty body lines, requires the END line right after a short line, decodes one line per refill and bounds leading/trailing whitespace by 1024 bytes.",
          "standard base64 encoder/decoder contracts assumed (stdb64ok/stdb64dec uninterpreted); composition of base64.NewEncoder with the proved writeWrapped assumed; text-level re-armor identity not mechanised"),
+ "C09": ("proof: polymod is the fold of polystep over its input from state 1 (loop invariant, code vs spec with xor uninterpreted); polystep is GF(2)-linear, keeps 30 bits, and the six checksum symbols close the register to 1 (three QF_BV lemmas, for all 2^30 states and all symbol values); Decode accepts only printable ASCII, single case, last '1' separator at 1 <= pos <= len-7, charset symbols < 32, at least six data symbols; convertBits emits tobits-bit symbols and returns no data with an error; ParseX25519Recipient/Identity accept exactly HRP 'age' / 'AGE-SECRET-KEY-' and 32-byte payloads; String() encodes under those HRPs; validPluginName iff every rune is in the 66-character allow-list; plugin Parse*/Encode* return names only if valid.",
+         "strings.ToLower/ToUpper given the honest (ASCII-only) contract; the <=4-substitution claim additionally needs the exhaustive syndrome enumeration (thorough tier); 5<->8 bit regrouping round trip not mechanised"),
  "C10": ("proof: ScryptIdentity.Unwrap rejects (non-EII error, no scrypt.Key call) whenever a scrypt stanza is not the only stanza, at any position; unwrap calls scrypt.Key only with a canonical decimal work factor 1..maxWorkFactor, N = 2^logN, r=8, p=1; WrapWithLabels returns one fresh 128-bit hex label; digitsRe initialiser pinned to ^[1-9][0-9]*$.",
          "two fresh 128-bit labels differ: probabilistic; cmd/age LazyScryptIdentity not yet under contract"),
  "C11": ("proof: slicesEqual iff element-wise equal; Encrypt sorts every recipient's labels (count ghost), compares each later recipient against the first, and on every refusing return (no recipients, wrap error, incompatible labels) dst's ghost output is unchanged and Header.Marshal has not been called.",
@@ -37,7 +39,6 @@ CLAIMS = {
 
 NOT_YET = {
 
- "C09": "bech32 contracts need the bit-vector mode, not built yet",
  "C15": "cmd/age and cmd/age-keygen contracts not built yet",
  "C16": "plugin client loop contracts not built yet",
  "C17": "plugin name / exec contracts not built yet",
